@@ -39,6 +39,7 @@ def check(c: Check):
     clause_g(c)
     clause_h(c)
     clause_i(c)
+    clause_j(c)
     from .common import sweep_records
     sweep_records(c, 'C02-rec', ['exactly_lib.processing', 'exactly_lib.common.exit_value', 'exactly_lib.common.process_result_reporter', 'exactly_lib.test_case.result'], floor=12)
 
@@ -617,3 +618,40 @@ def clause_i(c: Check):
             outs.add('invalid-usage' if isinstance(p.val, Exc) and p.val.cls == ape else 'raises ' + util.describe(p.val))
     c.expect(outs == {'invalid-usage'}, 'C02-i', 'shlex_split/lexer-error-converted',
              'an unbalanced quote in an option value ends as %s' % sorted(outs), f.loc())
+
+
+# ---------------------------------------------------------------- j
+def clause_j(c: Check):
+    """ERR a parse error of the test case never gets lost on its way to the outcome: the handler object that the
+    parser step hands a ParseError to (`ex.accept(<handler>)`) raises on every path of every visit method - a visit
+    method that can return normally makes the parser step return nothing, and the processing goes on without a test
+    case (or the error is reported as another kind)."""
+    ix, fo = c.ix, c.fo
+    P = 'exactly_lib.processing.processors'
+    ap = ix.func(P + ':_Parser.apply')
+    handlers = []
+    for n in ast.walk(ap.node):
+        if isinstance(n, ast.Call) and isinstance(n.func, ast.Attribute) and n.func.attr == 'accept' and n.args:
+            a = n.args[0]
+            d = ix.callee(ap.module, ap, a) if isinstance(a, ast.Call) else None
+            if isinstance(d, ClassDef):
+                handlers.append(d)
+    c.require(len(handlers) == 1, 'C02-j: the visitor of parse errors in _Parser.apply is not found (%s)' % [h.name for h in handlers])
+    h = handlers[0]
+    pe = ix.cls('exactly_lib.processing.test_case_processing:ProcessError')
+    ae = ix.cls('exactly_lib.processing.test_case_processing:AccessorError')
+    n_m = 0
+    for name, m in sorted(h.methods.items()):
+        if not name.startswith('visit'):
+            continue
+        n_m += 1
+        outs = set()
+        for p in util.func_paths(ix, fo, m, Hooks()):
+            if p.kind == 'raise' and isinstance(p.val, Exc) and (p.val.cls is pe or p.val.cls is ae or pe in ix.mro(p.val.cls)):
+                outs.add('raises the access error')
+            else:
+                outs.add('returns' if p.kind == 'return' else 'raises %s' % util.describe(p.val))
+        c.expect(outs == {'raises the access error'}, 'C02-j', 'parse-error-handler/%s.%s' % (h.name, name),
+                 '%s.%s %s: the parse error it handles is lost (the parser step returns nothing)' % (
+                     h.name, name, ' / '.join(sorted(outs))), m.loc())
+    c.floor('C02-j', 'visit methods of the parse error handler', n_m, 2)
